@@ -67,10 +67,7 @@ theorem calcsF_sound (inp : RunInput) (dd : Name → Den) (k : Nat) (n : Name) :
     ∀ c ∈ calcsF inp dd k n, CalcOf inp dd n c := by
   apply iterN_inv (calcOut inp dd) (CalcOf inp dd n)
   · intro c x hc hx
-    unfold calcOut at hx
-    split at hx
-    · rename_i hg; exact CalcOf.deliv hc hg hx
-    · cases hx
+    exact CalcOf.deliv hc hx
   · intro x hx; exact CalcOf.static (mem_dedup.mp hx)
 
 theorem calcsF_complete {inp : RunInput} {dd : Name → Den} {k : Nat} {n : Name}
@@ -78,8 +75,8 @@ theorem calcsF_complete {inp : RunInput} {dd : Name → Den} {k : Nat} {n : Name
     c ∈ calcsF inp dd k n := by
   induction hc with
   | static hc => exact iterN_mono _ k _ _ (mem_dedup.mpr hc)
-  | @deliv c x _ hg hm ih =>
-    exact closedWith_spec h c ih x (by simp [calcOut, hg, hm])
+  | @deliv c x _ hm ih =>
+    exact closedWith_spec h c ih x hm
 
 theorem depsF_spec {inp : RunInput} {dd : Name → Den} {k : Nat} {n : Name} {L : List Name}
     (h : depsF inp dd k n = some L) : ∀ x, x ∈ L ↔ DepOf inp dd n x := by
@@ -93,19 +90,20 @@ theorem depsF_spec {inp : RunInput} {dd : Name → Den} {k : Nat} {n : Name} {L 
     · rintro ((a | a) | ⟨c, hc, a⟩)
       · exact Or.inl a
       · exact Or.inr (Or.inl (calcsF_sound inp dd k n x a))
-      · unfold taskOut at a
-        split at a
-        · rename_i hg
-          exact Or.inr (Or.inr ⟨c, calcsF_sound inp dd k n c hc, hg, List.mem_append.mp a⟩)
-        · cases a
-    · rintro (a | a | ⟨c, hc, hg, a⟩)
+      · exact Or.inr (Or.inr ⟨c, calcsF_sound inp dd k n c hc, List.mem_append.mp a⟩)
+    · rintro (a | a | ⟨c, hc, a⟩)
       · exact Or.inl (Or.inl a)
       · exact Or.inl (Or.inr (calcsF_complete hcl a))
-      · exact Or.inr ⟨c, calcsF_complete hcl hc, by simp only [taskOut, hg, if_true]; exact List.mem_append.mpr a⟩
+      · exact Or.inr ⟨c, calcsF_complete hcl hc, List.mem_append.mpr a⟩
   · cases h
 
 theorem good_ne_bot {d : Den} (h : d.rs.good = true) : d ≠ .bot := by
   intro e; rw [e] at h; cases h
+
+theorem deliv_ne_bot {inp : RunInput} {c x : Name} {d : Den}
+    (h : x ∈ (delivOf inp c d).calcs ∨ x ∈ (delivOf inp c d).tasks ∨ x ∈ (delivOf inp c d).files) : d ≠ .bot := by
+  intro e; rw [e, delivOf_bot] at h
+  rcases h with h | h | h <;> cases h
 
 /-- `dd` only makes derived claims -/
 def SoundDD (inp : RunInput) (dd : Name → Den) : Prop := ∀ x, dd x ≠ .bot → DenOf inp x (dd x)
@@ -159,14 +157,14 @@ theorem CalcOf.toR {inp : RunInput} {dd : Name → Den} {n c : Name} (hdd : Soun
     CalcR inp n c := by
   induction h with
   | static hc => exact CalcR.static hc
-  | deliv _ hg hm ih => exact CalcR.deliv ih (hdd _ (good_ne_bot hg)) hg hm
+  | deliv _ hm ih => exact CalcR.deliv ih (hdd _ (deliv_ne_bot (Or.inl hm))) hm
 
 theorem DepOf.toCl {inp : RunInput} {dd : Name → Den} {n x : Name} (hdd : SoundDD inp dd) (hcl : DenCl inp n)
     (h : DepOf inp dd n x) : DenCl inp x := by
-  rcases h with a | a | ⟨c, hc, hg, hm⟩
+  rcases h with a | a | ⟨c, hc, hm⟩
   · exact DenCl.ofTask hcl a
   · exact DenCl.ofCalc hcl (a.toR hdd)
-  · exact DenCl.ofDeliv hcl (hc.toR hdd) (hdd _ (good_ne_bot hg)) hg hm
+  · exact DenCl.ofDeliv hcl (hc.toR hdd) (hdd _ (deliv_ne_bot (Or.inr hm))) hm
 
 theorem contribC_sound {inp : RunInput} {dd : Name → Den} {k : Nat} (hdd : SoundDD inp dd) {t x : Name}
     (hcl : DenCl inp t) (hx : x ∈ contribC inp dd k t) : DenCl inp x := by
@@ -224,10 +222,10 @@ theorem CalcR.toOf {inp : RunInput} {dd : Name → Den} {n c : Name} (hdd : Soun
     CalcOf inp dd n c := by
   induction h with
   | static hc => exact CalcOf.static hc
-  | @deliv c x d _ hd hg hm ih =>
+  | @deliv c x d _ hd hm ih =>
     have hc : c ∈ L := (hL c).mpr (DepOf.ofCalc ih)
     have e : dd c = d := (hdd c (any_isBot_false hnb c hc)).functional hd
-    exact CalcOf.deliv ih (by rw [e]; exact hg) hm
+    exact CalcOf.deliv ih (by rw [e]; exact hm)
 
 theorem sub_contribC {inp : RunInput} {dd : Name → Den} {k : Nat} {t : Name} {L : List Name}
     (hd : depsF inp dd k t = some L) : ∀ x ∈ L, x ∈ contribC inp dd k t := by
@@ -250,12 +248,12 @@ theorem denClosureC_complete {inp : RunInput} {dd : Name → Den} {k : Nat} {cl 
   | @ofCalc t c _ hc ih =>
     obtain ⟨L, hL, hnb⟩ := hdet.deps t ih
     exact hdet.closed t ih c (sub_contribC hL c ((depsF_spec hL c).mpr (DepOf.ofCalc (hc.toOf hdd (depsF_spec hL) hnb))))
-  | @ofDeliv t c x d _ hc hd hg hm ih =>
+  | @ofDeliv t c x d _ hc hd hm ih =>
     obtain ⟨L, hL, hnb⟩ := hdet.deps t ih
     have hc' := hc.toOf hdd (depsF_spec hL) hnb
     have hcL : c ∈ L := (depsF_spec hL c).mpr (DepOf.ofCalc hc')
     have e : dd c = d := (hdd c (any_isBot_false hnb c hcL)).functional hd
-    exact hdet.closed t ih x (sub_contribC hL x ((depsF_spec hL x).mpr (Or.inr (Or.inr ⟨c, hc', by rw [e]; exact hg, hm⟩))))
+    exact hdet.closed t ih x (sub_contribC hL x ((depsF_spec hL x).mpr (Or.inr (Or.inr ⟨c, hc', by rw [e]; exact hm⟩))))
   | @ofSetup t d _ hr1 hd ih =>
     obtain ⟨L, hL, hnb⟩ := hdet.deps t ih
     obtain ⟨dd0, L0, hL0, hT0, h10⟩ := hr1
@@ -274,7 +272,7 @@ theorem closureTab_spec {inp : RunInput} {tab : List Den} {k : Nat} (hdd : Sound
     (fun y hy => iterN_mono _ _ _ y (mem_dedup.mpr hy)) hc⟩
 
 /-- the monitor holds of every trace of the model for any sound table under which the closure is determined -/
-theorem monitor_denOf {inp : RunInput} [NoFailDeliver inp] {s : Sys} (hr : Reach inp s ∨ PReach inp s) (nTasks : Nat) {tab : List Den}
+theorem monitor_denOf {inp : RunInput} {s : Sys} (hr : Reach inp s ∨ PReach inp s) (nTasks : Nat) {tab : List Den}
     {k : Nat} (hdd : SoundDD inp (ddTab tab)) (hdet : determinedOf inp tab k (closureTab inp tab k) = true)
     (complete : Bool) (hc : complete = true → s.rpc = .halted ∧ s.halt = .none ∧ s.stop = false) :
     monDenOf tab (closureTab inp tab k) nTasks (trace inp s) (exitCode s) complete = true := by
@@ -305,7 +303,7 @@ theorem monitor_denOf {inp : RunInput} [NoFailDeliver inp] {s : Sys} (hr : Reach
 
 /-- the monitor `monC08DenC` holds of every trace of the model on every input (calc_dep included) for which the
     executable denotation is determined -/
-theorem C08_monitor_denC {inp : RunInput} [NoFailDeliver inp] {s : Sys} (hr : Reach inp s ∨ PReach inp s) (nTasks : Nat)
+theorem C08_monitor_denC {inp : RunInput} {s : Sys} (hr : Reach inp s ∨ PReach inp s) (nTasks : Nat)
     (hdet : determinedC inp nTasks = true) (complete : Bool)
     (hc : complete = true → s.rpc = .halted ∧ s.halt = .none ∧ s.stop = false) :
     monC08DenC inp nTasks (trace inp s) (exitCode s) complete = true :=
